@@ -1,0 +1,50 @@
+//go:build verif
+
+package verifhook
+
+import "sync/atomic"
+
+// Handlers is the set of callbacks installed by the verification harness.
+type Handlers struct {
+	// Lock is called immediately before a lock guarding library state is taken.
+	Lock func(obj any)
+	// Unlocked is called immediately after that lock has been released.
+	Unlocked func(obj any)
+	// Go is called as the first statement of a library goroutine.
+	Go func(kind string, obj any)
+	// Atomic is called between two steps of lock-free code.
+	Atomic func(kind string, obj any)
+}
+
+var handlers atomic.Pointer[Handlers]
+
+// Set installs (or with nil removes) the handlers.
+func Set(h *Handlers) { handlers.Store(h) }
+
+// Lock is called immediately before a lock guarding library state is taken.
+func Lock(obj any) {
+	if h := handlers.Load(); h != nil && h.Lock != nil {
+		h.Lock(obj)
+	}
+}
+
+// Unlocked is called immediately after that lock has been released.
+func Unlocked(obj any) {
+	if h := handlers.Load(); h != nil && h.Unlocked != nil {
+		h.Unlocked(obj)
+	}
+}
+
+// Go is called as the first statement of a library goroutine.
+func Go(kind string, obj any) {
+	if h := handlers.Load(); h != nil && h.Go != nil {
+		h.Go(kind, obj)
+	}
+}
+
+// Atomic is called between two steps of lock-free code.
+func Atomic(kind string, obj any) {
+	if h := handlers.Load(); h != nil && h.Atomic != nil {
+		h.Atomic(kind, obj)
+	}
+}
